@@ -242,11 +242,13 @@ func feq(a, b float64) bool { return math.Float64bits(a) == math.Float64bits(b) 
 //@   tags C19
 
 //@ func rtxTimer.stop
+//@   modifies t.state, t.pending
 //@   ensures#stopped old(t.state) == rtxTimerStarted ==> t.state == rtxTimerStopped
 //@   ensures#other old(t.state) != rtxTimerStarted ==> t.state == old(t.state)
 //@   tags C19
 
 //@ func rtxTimer.close
+//@   modifies t.state, t.pending
 //@   ensures#closed t.state == rtxTimerClosed
 //@   tags C19
 
